@@ -435,7 +435,9 @@ def run_shard(params):
             pass
         value = bytes(rng.getrandbits(8) for _ in range(ln))
         latency = [rng.choice([0, 0, 1, 3]) for _ in range(8)]
-        sub = rng.randint(1, 20)
+        sub = rng.choice([0, rng.randint(1, 20), rng.randint(1, 20)])
+        if sub == 0:
+            res.count("normal_downloads_to_subindex_0")
         desc = dict(kind="write", mailbox=sz, mailbox_in=sz_in, length=ln,
                     sub=sub, latency=latency, junk=[], lenient=True,
                     value=value.hex()[:64])
